@@ -210,6 +210,11 @@ func (s *Server) Exit(ctx context.Context) error {
 func (s *Server) DidOpen(ctx context.Context, params *protocol.DidOpenTextDocumentParams) error {
 	s.documents.Store(params.TextDocument.URI, params.TextDocument.Text)
 	s.payeeTemplatesCache.Delete(params.TextDocument.URI)
+	// the editor's text may differ from the file (unsaved buffer restored, file changed on
+	// disk since start-up): the workspace follows it as it follows every later change
+	if path := uriToPath(params.TextDocument.URI); path != "" && s.workspace != nil {
+		s.workspace.UpdateFile(path, params.TextDocument.Text)
+	}
 	// documents that include this one now resolve it from the editor's text
 	s.treeEpoch.Add(1)
 	version := s.nextDiagnosticsVersion(params.TextDocument.URI)
@@ -273,6 +278,12 @@ func isFullChange(r protocol.Range) bool {
 
 func (s *Server) DidClose(ctx context.Context, params *protocol.DidCloseTextDocumentParams) error {
 	s.documents.Delete(params.TextDocument.URI)
+	// without an open document the file on disk is what the workspace is made of again
+	if path := uriToPath(params.TextDocument.URI); path != "" && s.workspace != nil {
+		if data, err := os.ReadFile(path); err == nil {
+			s.workspace.UpdateFile(path, string(data))
+		}
+	}
 	s.treeEpoch.Add(1)
 	s.nextDiagnosticsVersion(params.TextDocument.URI)
 	tokenCache.delete(params.TextDocument.URI)
